@@ -11,8 +11,6 @@ what the model renders (uninterpreted: matches any observed file).
 namespace Driver.FSFam
 open Proto AbsFS FontSave
 
-abbrev Str := List Char
-
 def splitOnC (s : String) (sep : String) : List String := if s = "" then [] else s.splitOn sep
 
 def field (toks : List String) (key : String) : String :=
